@@ -1,0 +1,201 @@
+//go:build verif
+
+/*
+ Licensed to the Apache Software Foundation (ASF) under one
+ or more contributor license agreements.  See the NOTICE file
+ distributed with this work for additional information
+ regarding copyright ownership.  The ASF licenses this file
+ to you under the Apache License, Version 2.0 (the
+ "License"); you may not use this file except in compliance
+ with the License.  You may obtain a copy of the License at
+
+     http://www.apache.org/licenses/LICENSE-2.0
+
+ Unless required by applicable law or agreed to in writing, software
+ distributed under the License is distributed on an "AS IS" BASIS,
+ WITHOUT WARRANTIES OR CONDITIONS OF ANY KIND, either express or implied.
+ See the License for the specific language governing permissions and
+ limitations under the License.
+*/
+
+package simseam
+
+import (
+	"sort"
+	"sync"
+	"time"
+	"unsafe"
+)
+
+// Lock kinds handed to the lock hooks.
+const (
+	KindLock    = 0
+	KindRLock   = 1
+	KindUnlock  = 2
+	KindRUnlock = 3
+)
+
+// All hooks default to nil, which means pass-through: with the tag on but no
+// simulator installed the code behaves exactly as the untagged build.
+var (
+	// LockHook is called before a mutex is acquired (KindLock, KindRLock) and
+	// before it is released (KindUnlock, KindRUnlock). It returns when the
+	// operation may proceed.
+	LockHook func(m unsafe.Pointer, kind int)
+	// GoHook starts fn as a simulated goroutine.
+	GoHook func(fn func())
+	// AfterFuncHook replaces time.AfterFunc.
+	AfterFuncHook func(d time.Duration, fn func()) *time.Timer
+	// PermHook returns a permutation of 0..n-1 used to order the keys of a map
+	// that is being ranged over; nil result keeps the canonical sorted order.
+	PermHook func(n int) []int
+	// NameHook gives a stable name to a map key that is not of an ordered
+	// builtin type (pointers).
+	NameHook func(key any) string
+)
+
+// Go runs fn in a new goroutine, through the simulator if one is installed.
+func Go(fn func()) {
+	if h := GoHook; h != nil {
+		h(fn)
+		return
+	}
+	go fn()
+}
+
+// AfterFunc is time.AfterFunc, through the simulator if one is installed.
+func AfterFunc(d time.Duration, fn func()) *time.Timer {
+	if h := AfterFuncHook; h != nil {
+		return h(d, fn)
+	}
+	return time.AfterFunc(d, fn)
+}
+
+// Keys returns the keys of m in a canonical order, permuted by PermHook.
+func Keys[K comparable, V any](m map[K]V) []K {
+	keys := KeysSorted(m)
+	if h := PermHook; h != nil && len(keys) > 1 {
+		if p := h(len(keys)); p != nil {
+			out := make([]K, len(keys))
+			for i, j := range p {
+				out[i] = keys[j]
+			}
+			return out
+		}
+	}
+	return keys
+}
+
+// KeysSorted returns the keys of m in canonical sorted order.
+func KeysSorted[K comparable, V any](m map[K]V) []K {
+	if len(m) == 0 {
+		return nil
+	}
+	keys := make([]K, 0, len(m))
+	for k := range m {
+		keys = append(keys, k)
+	}
+	if len(keys) < 2 {
+		return keys
+	}
+	switch ks := any(keys).(type) {
+	case []string:
+		sort.Strings(ks)
+	case []int:
+		sort.Ints(ks)
+	case []int32:
+		sort.Slice(ks, func(i, j int) bool { return ks[i] < ks[j] })
+	case []int64:
+		sort.Slice(ks, func(i, j int) bool { return ks[i] < ks[j] })
+	case []uint32:
+		sort.Slice(ks, func(i, j int) bool { return ks[i] < ks[j] })
+	case []uint64:
+		sort.Slice(ks, func(i, j int) bool { return ks[i] < ks[j] })
+	default:
+		names := make([]string, len(keys))
+		for i := range keys {
+			names[i] = nameOf(any(keys[i]))
+		}
+		sort.Sort(&byName[K]{keys: keys, names: names})
+	}
+	return keys
+}
+
+// UnnamedKeys counts keys for which no stable name was available; a
+// simulation run requires it to stay zero.
+var UnnamedKeys int
+
+func nameOf(k any) string {
+	if h := NameHook; h != nil {
+		if n := h(k); n != "" {
+			return n
+		}
+	}
+	UnnamedKeys++
+	return ""
+}
+
+type byName[K comparable] struct {
+	keys  []K
+	names []string
+}
+
+func (b *byName[K]) Len() int           { return len(b.keys) }
+func (b *byName[K]) Less(i, j int) bool { return b.names[i] < b.names[j] }
+func (b *byName[K]) Swap(i, j int) {
+	b.keys[i], b.keys[j] = b.keys[j], b.keys[i]
+	b.names[i], b.names[j] = b.names[j], b.names[i]
+}
+
+// Mutex is a sync.Mutex that reports to LockHook; used to bring third-party
+// mutexes that can be held across a yield point into the lock model.
+type Mutex struct {
+	mu sync.Mutex
+}
+
+func (m *Mutex) Lock() {
+	if h := LockHook; h != nil {
+		h(unsafe.Pointer(m), KindLock)
+	}
+	m.mu.Lock()
+}
+
+func (m *Mutex) Unlock() {
+	if h := LockHook; h != nil {
+		h(unsafe.Pointer(m), KindUnlock)
+	}
+	m.mu.Unlock()
+}
+
+// RWMutex is a sync.RWMutex that reports to LockHook.
+type RWMutex struct {
+	mu sync.RWMutex
+}
+
+func (m *RWMutex) Lock() {
+	if h := LockHook; h != nil {
+		h(unsafe.Pointer(m), KindLock)
+	}
+	m.mu.Lock()
+}
+
+func (m *RWMutex) Unlock() {
+	if h := LockHook; h != nil {
+		h(unsafe.Pointer(m), KindUnlock)
+	}
+	m.mu.Unlock()
+}
+
+func (m *RWMutex) RLock() {
+	if h := LockHook; h != nil {
+		h(unsafe.Pointer(m), KindRLock)
+	}
+	m.mu.RLock()
+}
+
+func (m *RWMutex) RUnlock() {
+	if h := LockHook; h != nil {
+		h(unsafe.Pointer(m), KindRUnlock)
+	}
+	m.mu.RUnlock()
+}
